@@ -167,11 +167,11 @@ PROPS['C05'] = dict(
                 'events over 3 keys; plus "fires exactly at the H-th tick" for H <= 6 (bounded stand-in, not a proof). The EXECUTION of the decision is '
                 'proved unbounded by Verus (unit waiting, text cut from layout.rs): Layout::waiting_into_hold / _tap / _timeout / drop_waiting run exactly the '
                 'chosen action, once, at the key\'s coordinate, with delay + ticks, after removing exactly that waiting key; do_action itself is a stub that logs its calls.'),
-    level_note='Trusted: rustc, Kani + CBMC, Verus + Z3. Not decided: Layout::do_action (what the chosen action then does), replay order of buffered keys in Layout::tick, repress window, which index tick passes.',
+    level_note='Trusted: rustc, Kani + CBMC, Verus + Z3. Not decided: Layout::do_action (what the chosen action then does), replay order of buffered keys (Layout::dequeue), process_extra_waitings (dispatch for concurrent tap-holds).',
     technique='contract harnesses (Kani/CBMC) for the decision: symbolic waiting state + symbolic bounded queue, decision oracle from the statement, frame, must-fail twin; Verus contracts (unbounded) on the extracted waiting_into_* methods with a ghost call log for the execution',
     design_ref='DESIGN.md section 4, C05',
-    explanation='handle_hold_tap: at most one of Tap/Hold/Timeout, never NoOp; Tap iff own release queued before the timeout elapsed; Timeout exactly when it elapses; early Hold on other press (press variant) / other press+release (release variant); queue and clock untouched. waiting_into_hold/_timeout: verif_calls == old.push(decision_call(w, w.hold / w.timeout_action, ..)) - exactly one call, the right action, coordinate and delay, waiting key consumed (for extra_waiting: exactly the idx-th removed); waiting_into_tap: that call first, then only the C09 repeats; drop_waiting: no call. do_action_hold_tap (FRAGMENT: the HoldTap arm of Layout::do_action): an ordinary press creates exactly one pending decision carrying this key\'s hold / tap / timeout actions, timeout (reduced by the queueing delay in quick mode), delay, ticks 0, in the primary slot if free else as one more concurrent one, arms the tap-repress window, and runs NO action; a re-press of the same key inside the window creates no decision and runs the tap action exactly once.',
-    verus=[dict(unit='waiting', only=['waiting_into_hold', 'waiting_into_tap', 'waiting_into_timeout', 'drop_waiting', 'do_action_hold_tap', 'update_coord', 'update', 'lemma_sigs_push'])],
+    explanation='handle_hold_tap: at most one of Tap/Hold/Timeout, never NoOp; Tap iff own release queued before the timeout elapsed; Timeout exactly when it elapses; early Hold on other press (press variant) / other press+release (release variant); queue and clock untouched. waiting_into_hold/_timeout: verif_calls == old.push(decision_call(w, w.hold / w.timeout_action, ..)) - exactly one call, the right action, coordinate and delay, waiting key consumed (for extra_waiting: exactly the idx-th removed); waiting_into_tap: that call first, then only the C09 repeats; drop_waiting: no call. do_action_hold_tap (FRAGMENT: the HoldTap arm of Layout::do_action): an ordinary press creates exactly one pending decision carrying this key\'s hold / tap / timeout actions, timeout (reduced by the queueing delay in quick mode), delay, ticks 0, in the primary slot if free else as one more concurrent one, arms the tap-repress window, and runs NO action; a re-press of the same key inside the window creates no decision and runs the tap action exactly once. tick_dispatch (FRAGMENT: the `match &mut self.waiting` expression of Layout::tick): with tick_wt as a deterministic stub (decide / ticked), exactly the method matching the decision runs on the primary slot - Hold -> hold action, Timeout -> timeout action, Tap -> tap action (+ chord repeats), NoOp -> dropped, None -> nothing and the key stays undecided - and nothing is dequeued while a key is undecided; with no undecided key the oldest queued event is dequeued iff no concurrent tap-hold is pending and the one-shot input pause has run out.',
+    verus=[dict(unit='waiting', only=['waiting_into_hold', 'waiting_into_tap', 'waiting_into_timeout', 'drop_waiting', 'do_action_hold_tap', 'tick_dispatch', 'update_coord', 'update', 'lemma_sigs_push'])],
     kani=[
         H('keyberon', 'layout', 'c05_b_handle_hold_tap', kind='bounded', bound='queue <= 4 events over 3 keys', functions=[L + 'WaitingState::handle_hold_tap']),
         H('keyberon', 'layout', 'c05_b_tick_wt_hold_tap', kind='bounded', bound='queue <= 4 events over 3 keys', functions=[L + 'WaitingState::tick_wt (HoldTap arm)']),
@@ -303,17 +303,20 @@ PROPS['C02'] = dict(
     level='other',
     level_text=('Partial. Absence of panics, arithmetic overflow, out-of-bounds indexing, failed unwrap/expect/assert!/unreachable! is an obligation of every '
                 'function under contract for the other properties; C02 reports the union. Unbounded (Verus): all of dynamic_macro.rs recorder/replayer '
-                'functions for EVERY state (no preconditions) and the switch codec/decoder under their stated preconditions. Bounded (Kani): one-shot, '
-                'tap-hold, tap-dance, chord, history and diagnostics functions within the bounds listed per harness. Layout::{tick,do_action,event,resolve_coord}, '
-                'every Kanata method and the parser are NOT covered.'),
+                'functions for EVERY state (no preconditions), the switch codec/decoder/evaluator and the compiler fragments under their stated preconditions, the three OneShotState methods, '
+                'the waiting_into_* methods and the tap-hold / tap-dance / one-shot arms and the tick dispatch of Layout (fragments), Kanata::handle_repeat_actual and Kanata::handle_scrolling '
+                '(`interval - 1`: safe exactly under the parser-enforced non-zero interval). Bounded (Kani): one-shot, '
+                'tap-hold, tap-dance, chord, history and diagnostics functions within the bounds listed per harness. The bulk of Layout::{tick,do_action,event,resolve_coord}, '
+                'every other Kanata method and the parser are NOT covered.'),
     level_note='The universal statement (whole system, all accepted configs, all histories) is out of reach of contracts; only per-function panic-freedom is decided. Parser-side range checks the run time relies on (non-zero intervals, depth <= 8) are assumed.',
     technique='contract-based: Verus (overflow/bounds/unwrap/assert sites as obligations) + Kani default checks on the harnesses of C03 C05 C06 C09 C10 C11 C17',
     design_ref='DESIGN.md section 4, C02',
     explanation='union of panic-freedom obligations of every function under contract; the quick tier leaves out only the harnesses that are thorough-tier in their own property and the full-domain key table harness',
-    verus=[dict(unit='dynmacro', only=DYN_FUNCS), dict(unit='switch'), dict(unit='oneshot'), dict(unit='waiting')],
+    verus=[dict(unit='dynmacro', only=DYN_FUNCS), dict(unit='switch'), dict(unit='oneshot'), dict(unit='waiting'), dict(unit='ticks'), dict(unit='repeat')],
     kani=_c02_kani(),
     assumptions=[
-        'NOT covered: Layout::{tick, do_action, event, resolve_coord, process_sequences}, ChordsV2::process_presses, every Kanata method, the parser',
+        'NOT covered: Layout::{tick, do_action, event} outside the fragments named above, resolve_coord, process_sequences, ChordsV2::process_presses, every Kanata method except handle_repeat_actual and handle_scrolling (handle_move_mouse uses f64; tick_sequence_state returns a &mut from a getter), the parser',
+        'preconditions that carry parser promises (unchecked on the parser side, whose checking functions are closure chains): scroll interval >= 1 (handle_scrolling), expression depth <= 8 (evaluator; the compiler prologue fragment establishes it), layer numbers index key_outputs (handle_repeat_actual), a tap-dance lists >= 1 action, w.delay + w.ticks <= 65535 (waiting_into_*)',
         'switch evaluation: expression depth <= 8 and well-formed opcode stream are preconditions (parser promises, unchecked)',
         'observed, not under any obligation: resolve_coord asserts y <= len then indexes [y]; chords v2 drain_releases/process_presses debug_assert on > 16 queued presses (debug builds only); get_active_chord extend() panics for a chord with > 16 participants',
     ],
@@ -322,23 +325,33 @@ PROPS['C02'] = dict(
 
 PROPS['C14'] = dict(
     level='proof',
-    level_text=('PARTIAL: unbounded deductive proof (Verus/Z3, structural induction over the real Action type) of the TABLE-COMPLETENESS half of the property only: '
-                'add_key_output_from_action_to_key_pos records, for a key position, every OS key its action can put down, for every action tree '
+    level_text=('Unbounded deductive proofs (Verus/Z3) of BOTH halves, on text cut from /repo each run. (1) Table completeness, by structural induction over the real '
+                'Action type: add_key_output_from_action_to_key_pos records, for a key position, every OS key its action can put down, for every action tree '
                 '(plain key, output chord, multi, tap-hold incl. timeout action, tap-dance, one-shot, fork, switch, chords v1, unmod/unshift, use-defsrc). '
-                'The run-time half (handle_repeat_actual: "at most one repeat, only for a key that is currently down", layer lookup order, preference of '
-                'the last-listed key) is NOT decided: it is a Kanata method over hash maps and layout calls, outside both verifiers.'),
-    level_note=('Trusted: rustc, Verus+Z3, extractor (R7e: CustomAction is sliced to the two variants the function names plus one catch-all; HoldTapConfig, UnmodMods, Overrides '
-                'and the per-layer HashMap are opaque types). Assumed: add_kc_output inserts (position, key) and never removes (hash-map entry API + override lookup); '
-                'KeyCode->OsCode preserves the number (proved by Kani in C11). Not covered: add_chordsv2_output_for_key_pos, create_key_outputs, handle_repeat_actual.'),
-    technique='contract-based deductive verification (Verus: ensures over a recursive spec function can_output, decreases on the action tree, loop invariants over ghost iterators)',
+                '(2) The run-time lookup, Kanata::handle_repeat_actual cut whole: at most one event is written, it is a Repeat, and it is for exactly '
+                'repeat_pick(..) = held layers newest first, then the base layer, then the physical key itself, in each table the LAST-listed output that is '
+                'active - and that key is active (in the override-adjusted list of keys being held, or held through unshift / unmod); nothing in the hidden sequence modes. '
+                'Everything handle_repeat_actual calls is a stub with an assumed contract; the link between the two halves (the run-time table IS what the builder '
+                'produced, per layer) and the chords-v2 / override contributions to the table are not under contract.'),
+    level_note=('Trusted: rustc, Verus+Z3, extractor (R7/R7e slicing; opaque HoldTapConfig, UnmodMods, Overrides, HashMap; in unit repeat OsCode/KeyCode are opaque and the conversion is '
+                'a spec function - their identity is C11). Assumed: add_kc_output inserts (position, key) and never removes; Layout::keycodes / trans_resolution_layer_order, '
+                'Overrides::override_keys (any change of the held-key list), write_key (one log entry), FxHashMap::get, slice contains; every layer number the layout reports indexes key_outputs. '
+                'Not covered: add_chordsv2_output_for_key_pos, create_key_outputs, the hardware repeat gate.'),
+    technique='contract-based deductive verification (Verus): ensures over recursive spec functions (can_output; repeat_pick), decreases on the action tree, loop invariants over ghost iterators, ghost output log',
     design_ref='DESIGN.md section 4 C14 and section 9.1b',
-    explanation=('Contract on the real text of parser/src/cfg/key_outputs.rs::add_key_output_from_action_to_key_pos: for all k, can_output(action, slot, k) ==> the table has (slot, k) '
+    explanation=('Unit keyout - contract on parser/src/cfg/key_outputs.rs::add_key_output_from_action_to_key_pos: for all k, can_output(action, slot, k) ==> the table has (slot, k) '
                  'afterwards, and the table only grows; can_output is written from the list of key-producing forms in the property statement; termination by structural '
-                 'decrease through references and slices; seven for-loops with invariants.'),
-    verus=[dict(unit='keyout')],
+                 'decrease through references and slices; seven for-loops with invariants. Unit repeat - contract on src/kanata/key_repeat.rs::handle_repeat_actual: the log of '
+                 'OS writes grows by at most one (key, Repeat) entry, the key is repeat_pick(order, default_layer, key_outputs, event.code, cur_keys\', unshifted, unmodded), '
+                 'which is proved active (lemma_last_active_is_active); three loops (held layers; outputs of a held layer, reversed; outputs of the base layer, reversed) with '
+                 'invariants "no earlier layer / later-listed output was active"; early returns carry the postcondition.'),
+    verus=[dict(unit='keyout'), dict(unit='repeat')],
     kani=[],
     assumptions=[
-        'NOT decided: Kanata::handle_repeat_actual (emits at most one repeat, only for a key that is down; layer order; prefers the last-listed key), the hardware repeat gate and sequence-mode suppression',
+        'unit repeat, ASSUMED stubs: SequenceState::get_active (rewritten to a shared-reference getter, R18), KanataLayout::bm() (R18: shared reference; only default_layer, keycodes(), trans_resolution_layer_order() are read), Vec::extend (R19), Overrides::override_keys (may change the held-key list arbitrarily - C13 is not decided), write_key (appends one entry to a ghost log; its own filter is proved in C11), FxHashMap::get, <[T]>::contains = membership for structural-equality types, `v.iter().rev().copied()` = the items back to front (R17); bail! -> return Err (R13)',
+        'unit repeat, PRECONDITION not established by a caller under contract: every layer number in the layout\'s resolution order, and default_layer, index key_outputs',
+        'cur_keys is assumed empty on entry only implicitly: the contract speaks about cur_keys AFTER extend + override_keys, whatever it was before',
+        'NOT decided: that key_outputs at run time is the table add_key_output_from_action_to_key_pos built (create_key_outputs, live reload); the hardware repeat gate in the Linux event loop',
         'NOT covered: add_chordsv2_output_for_key_pos (reads an FxHashMap), create_key_outputs (the per-layer driver loop), override outputs added inside add_kc_output',
         'add_kc_output is an assumed callee (external_body): inserts (position, key), never removes',
         'KeyCode -> OsCode (a transmute) is assumed to preserve the number here; that is proved for every code by the Kani harnesses of C11',
